@@ -439,6 +439,49 @@ def check_c09(res, tier, replay):
                     if bad <= 30:
                         res.violation({'cases': [c], 'call': t, 'problem': problem,
                                        'oracle': 'every call on one instance (any order, also concurrently) = the same call on a fresh instance = the Lean model (a function of configuration and input only)'})
+    # one instance on several sides of a compound (Split(m, m), And(m, m), Majority(m, m, x)): the wrapped strategy is then computed
+    # concurrently on the same snapshots, and the compound must equal the one built from separate, equally configured instances
+    same_n = 0
+    if not replay:
+        sl, pairs = [], []
+        for wrap, tmpl in (('Split', '%s+%s'), ('And', '%s+%s'), ('Or', '%s+%s'), ('Majority', '%s+%s+Bop'), ('Majority', '%s+Bop+%s')):
+            for base in ('Macd', 'Rsi', 'Kdj', 'SuperTrend', 'Trix', 'Vwma'):
+                for j in range(1 if tier == 'quick' else 4):
+                    o, _ = gen_ohlcv(rng, rng.choice([0, 3, 12, 30, 60]), rng.choice(['walk', 'wide', 'zigzag', 'down', 'up']))
+                    env = [o[k] for k in KINDS_OF]
+                    k = len(pairs)
+                    ref_pos = '@0' if tmpl.index('%s', 3) == 3 else '@0'
+                    shared_name = wrap + ':' + (tmpl % (base, '@0'))
+                    separate_name = wrap + ':' + (tmpl % (base, base))
+                    pairs.append((shared_name, separate_name, env))
+                    sl.append('y%d_a %s' % (k, sched_line('STRAT', shared_name, [], [], env, 0, 0)))
+                    sl.append('y%d_b %s' % (k, sched_line('STRAT', separate_name, [], [], env, 0, 0)))
+        sg_ = vlib.run_go(sl)
+        for k, (a, b, env) in enumerate(pairs):
+            ga, gb = parse_sched(sg_.get('y%d_a' % k, 'missing')), parse_sched(sg_.get('y%d_b' % k, 'missing'))
+            same_n += 1
+            if ga.get('status') != gb.get('status') or ga.get('outs') != gb.get('outs'):
+                bad += 1
+                if bad <= 30:
+                    res.violation({'problem': '%s (one instance on two sides) differs from %s (separate instances): shared=%s %s separate=%s %s'
+                                   % (a, b, ga.get('status'), str(ga.get('outs'))[:120], gb.get('status'), str(gb.get('outs'))[:120]),
+                                   'lines': [sl[2 * k].split(' ', 1)[1], sl[2 * k + 1].split(' ', 1)[1]],
+                                   'oracle': 'an instance may be used concurrently: a compound over one instance twice = the compound over two equal instances'})
+    res.coverage['one_instance_on_two_sides'] = same_n
+    # instances handed out by the library are independent objects: overwriting the configuration of one set of registry / default
+    # constructor instances in place must not change how other instances (built before or after) behave
+    al = []
+    for j in range(2 if tier == 'quick' else 8):
+        o, _ = gen_ohlcv(rng, rng.choice([230, 260, 300]), rng.choice(['walk', 'wide', 'zigzag']))
+        al.append('al%d ALIAS %s' % (j, vlib.streams([o[k] for k in KINDS_OF])))
+    ag = vlib.run_go(al, nproc=2)
+    for j, ln in enumerate(al):
+        g = ag.get('al%d' % j, 'missing')
+        if not g.startswith('ok independent'):
+            bad += 1
+            res.violation({'problem': 'instances returned by the registries / default constructors share state: ' + g[:400], 'lines': [ln.split(' ', 1)[1][:3000]],
+                           'oracle': 'an instance holds its own configuration: re-configuring one instance in place leaves every other instance unchanged'})
+    res.coverage['alias_runs'] = len(al)
     # shared instances: the library's own compound lists
     shared = vlib.run_go(['x0 SHARED %d' % (3 if tier == 'quick' else 8)], race=True, env_extra=race_env, nproc=1)
     sg = shared.get('x0', 'missing')
@@ -549,8 +592,11 @@ def check_reconf(res, rng, tier, which, prop, names=None, modes=('replace', 'inp
                 problem = 'reconfigured run failed: ' + g[:300]
             else:
                 parts = g[3:].split(' | ')
-                if len(parts) != 3:
+                if len(parts) != 4:
                     problem = 'unparsable: ' + g[:200]
+                elif parts[3] != parts[0]:
+                    problem = ('after another instance was re-configured (%s), a new instance of %s %s %s no longer behaves as the first one did: instances share state: first=%s now=%s'
+                               % (mode, c['a'], c['nsA'], c['fsA'], parts[0][:160], parts[3][:160]))
                 elif parts[1] != parts[2]:
                     problem = ('a used instance whose exported configuration was set (%s) to %s %s %s differs from a fresh instance of that configuration: reconfigured=%s fresh=%s'
                                % (mode, c['b'], c['nsB'], c['fsB'], parts[1][:160], parts[2][:160]))
